@@ -641,7 +641,12 @@ def interaction_programs(cfg, start_id=1, floats=False):
     nonatomic = [binop("+", W, lit(1)), binop("*", V, W), unop("-", V), binop("-", lit(3), V)]
     switches = [{"k": "ds", "cases": [W, V]}, {"k": "ds", "cases": [V, {"k": "hole"}, W, V]}, {"k": "ds", "cases": [lit(1), V, lit(2), W]}]
     tern = [{"k": "tern", "c": binop("<", V, W) if not floats else binop("<", var(1000), var(1001)), "a": V, "b": W}]
-    casts = ([unop("float", var(1000)), var(1000, "%")] if floats else [unop("int", var(1004)), var(1004, "$")])
+    # casts and sigils, also stacked on a variable that already carries the opposite sigil (`float($F)`, `%($F)`,
+    # `int(%I)`, `$(%I)`): the inner read truncates / converts first, so the pair is not the identity
+    casts = ([unop("float", var(1000)), var(1000, "%"), unop("float", var(v, "$")), unop("%", var(w, "$")), unop("float", unop("int", V))]
+             if floats else
+             [unop("int", var(1004)), var(1004, "$"), unop("int", var(v, "%")), unop("$", var(w, "%")), unop("int", unop("float", V)),
+              unop("int", unop("float", var(1004, "$")))])
     operands = simple + nonatomic + switches + tern + casts
     ops = ["+", "-", "*"]
     out = []
@@ -724,6 +729,51 @@ def loopnest_programs(cfg, start_id=1):
                         body.append({"k": "label", "name": "PO"})
                         body.append(call(100, []))
                         # unused labels are fine for the compiler; drop those nothing jumps to, to keep the shape tight
+                        used = {s.get("label") for s in body if s.get("label")}
+                        body = [s for s in body if not (s.get("k") == "label" and s["name"] not in used)]
+                        out.append({"id": pid, "cfg": cfg, "vars": [{"id": "r1000", "ty": "i"}, {"id": "r1001", "ty": "i"}], "body": body})
+                        pid += 1
+    return out
+
+
+def chain_programs(cfg, start_id=1):
+    """C07: systematic two- and three-block conditional chains in flat label/goto form where the exit jump of each
+    block and the conditional jumps go to every interesting place (the chain's end label, a label in the middle of
+    the last block, a label after the statement following the chain, the next block's label), with and without time
+    labels between the pieces.  Every combination is generated."""
+    R, S = var(1000), var(1001)
+    out = []
+    pid = start_id
+    def cj(kw, reg, val, label):
+        return {"k": "condjump", "kw": kw, "cond": binop("==", reg, ilit(val)), "jump": "goto", "label": label}
+    for nblocks in (2, 3):
+        for x in ("E", "M", "P", "NEXT", "none"):           # where block 1 goes when it is done
+            for y in ("E", "P", "M"):                         # where the last conditional jump goes when it does not hold
+                for kw in ("if", "unless"):
+                    for tl in (0, 1, 2):
+                        body = []
+                        body.append(cj(kw, R, 0, "L1"))
+                        body.append(call(101, [ilit(1)]))
+                        if tl == 1:
+                            body.append({"k": "rel", "e": ilit(5)})
+                        if x != "none":
+                            body.append({"k": "jump", "jump": "goto", "label": {"E": "E", "M": "M", "P": "P", "NEXT": "L1"}[x]})
+                        body.append({"k": "label", "name": "L1"})
+                        if nblocks == 3:
+                            body.append(cj(kw, R, 1, "L2"))
+                            body.append(call(101, [ilit(2)]))
+                            body.append({"k": "jump", "jump": "goto", "label": "E"})
+                            body.append({"k": "label", "name": "L2"})
+                        if tl == 2:
+                            body.append({"k": "rel", "e": ilit(5)})
+                        body.append(cj(kw, S, 0, y))
+                        body.append(call(101, [ilit(3)]))
+                        body.append({"k": "label", "name": "M"})
+                        body.append(call(101, [ilit(4)]))
+                        body.append({"k": "label", "name": "E"})
+                        body.append(call(101, [ilit(5)]))
+                        body.append({"k": "label", "name": "P"})
+                        body.append(call(100, []))
                         used = {s.get("label") for s in body if s.get("label")}
                         body = [s for s in body if not (s.get("k") == "label" and s["name"] not in used)]
                         out.append({"id": pid, "cfg": cfg, "vars": [{"id": "r1000", "ty": "i"}, {"id": "r1001", "ty": "i"}], "body": body})
